@@ -264,6 +264,7 @@ type fxTransport struct {
 	dials   []*fxDial
 	nconn   int
 	updates bool // implement DialUpdater behaviour
+	hook    func(rec *fxDial, begin bool)
 }
 
 func fxNewTransport(name string, local fxIdent, proxy bool, codes ...int) *fxTransport {
@@ -292,6 +293,10 @@ func (t *fxTransport) dial(ctx context.Context, raddr ma.Multiaddr, p peer.ID, u
 	t.mu.Lock()
 	t.dials = append(t.dials, rec)
 	t.mu.Unlock()
+	if t.hook != nil {
+		t.hook(rec, true)
+		defer t.hook(rec, false)
+	}
 	ch := t.outcomeCh(raddr.String())
 	for {
 		if fxDebug {
@@ -411,6 +416,7 @@ func (n *fxNotifiee) Connected(nw network.Network, c network.Conn) {
 	if n.onConn != nil {
 		n.onConn(nw, c)
 	}
+	vs.Yield() // the handler keeps working for a while: it can be preempted while still inside Connected
 	nt.End = vs.Stamp()
 }
 func (n *fxNotifiee) Disconnected(nw network.Network, c network.Conn) {
@@ -418,6 +424,7 @@ func (n *fxNotifiee) Disconnected(nw network.Network, c network.Conn) {
 	if n.onDisc != nil {
 		n.onDisc(nw, c)
 	}
+	vs.Yield()
 	nt.End = vs.Stamp()
 }
 func (n *fxNotifiee) Listen(network.Network, ma.Multiaddr)      {}
